@@ -521,12 +521,12 @@ func (t *Tree) RerootOutGroup(removeoutgroup, strict bool, tips ...string) error
 		ne := t.ConnectNodes(root, lnode)
 		ne2 := t.ConnectNodes(root, rnode)
 
-		if length > 0 {
+		if length != NIL_LENGTH {
 			ne.SetLength(length / 2.0)
 			ne2.SetLength(length / 2.0)
-			ne.SetSupport(support)
-			ne2.SetSupport(support)
 		}
+		ne.SetSupport(support)
+		ne2.SetSupport(support)
 	}
 	if err = t.reroot_nocheck(root); err != nil {
 		return err
